@@ -144,6 +144,19 @@ fn any_ty(r: &mut Rng) -> Ty { [Ty::Normal, Ty::Silent, Ty::Atomic, Ty::Compound
 fn mostly(r: &mut Rng, t: Ty) -> Ty { if r.chance(3, 4) { t } else { any_ty(r) } }
 fn strlit(r: &mut Rng) -> String { ["x", "y", "xy", "é", "", "yx", " "][r.weighted(&[6, 5, 3, 2, 1, 1, 1])].to_string() }
 fn small(r: &mut Rng, i: usize, n: usize, c: &GenCfg) -> GE { gen_expr(r, 1, i, n, c) }
+/// a built-in rule by name: the line break and the character classes most often, then ANY / SOI / EOI, the stack built-ins rarely (a pass
+/// that inspects or resolves a sub-expression must treat a built-in as what it is, not as a user rule or as a literal it spells out itself)
+fn builtin(r: &mut Rng) -> GE {
+    match r.weighted(&[5, 6, 3, 1]) {
+        0 => id("NEWLINE"),
+        1 => id(["ASCII_DIGIT", "ASCII_NONZERO_DIGIT", "ASCII_BIN_DIGIT", "ASCII_OCT_DIGIT", "ASCII_HEX_DIGIT", "ASCII_ALPHA_LOWER", "ASCII_ALPHA_UPPER", "ASCII_ALPHA",
+                 "ASCII_ALPHANUMERIC", "ASCII"][r.below(10) as usize]),
+        2 => id(["ANY", "SOI", "EOI"][r.below(3) as usize]),
+        _ => id(["PEEK", "POP", "DROP", "PEEK_ALL", "POP_ALL"][r.below(5) as usize]),
+    }
+}
+/// a small expression, one time in six a built-in (the operands the rewrites compare, merge, resolve or move)
+fn operand(r: &mut Rng, i: usize, n: usize, c: &GenCfg) -> GE { if r.chance(1, 6) { builtin(r) } else { small(r, i, n, c) } }
 /// random binary tree over the leaves with operator `op`, leaning left with probability lean/4 (lean = 9: right-nested)
 fn tree(r: &mut Rng, mut leaves: Vec<GE>, op: fn(GE, GE) -> GE, lean: u64) -> GE {
     if leaves.len() == 1 { return leaves.pop().unwrap(); }
@@ -182,16 +195,18 @@ fn shaped(r: &mut Rng, kind: u32, x: bool, wild: bool, huge_ok: bool) -> Vec<GRu
     let mut rules: Vec<GRule> = (0..n).map(|i| GRule { name: format!("r{}", i), ty: any_ty(r), e: gen_expr(r, 2, i, n, &c) }).collect();
     let e0 = match kind {
         0 => { let k = 3 + r.below(3) as usize; let is_seq = r.chance(1, 2); let op: fn(GE, GE) -> GE = if is_seq { seq } else { cho };
-               let leaves = (0..k).map(|_| if r.chance(1, 4) { let m = 2 + r.below(2) as usize; let l2 = (0..m).map(|_| small(r, 0, n, &c)).collect(); tree(r, l2, if is_seq { cho } else { seq }, 3) } else { small(r, 0, n, &c) }).collect();
+               let leaves = (0..k).map(|_| if r.chance(1, 4) { let m = 2 + r.below(2) as usize; let l2 = (0..m).map(|_| operand(r, 0, n, &c)).collect(); tree(r, l2, if is_seq { cho } else { seq }, 3) } else { operand(r, 0, n, &c) }).collect();
                tree(r, leaves, op, 3) }
         1 => {
             rules[0].ty = mostly(r, Ty::Atomic);
             // helper rules: string choices (inlinable), or not
-            rules[2].e = match r.below(6) { 0 | 1 => s(&strlit(r)), 2 | 3 => cho(s(&strlit(r)), s(&strlit(r))), 4 => seq(s("x"), s("y")), _ => GE::Range('x', 'y') };
+            // ... or a built-in on its own / next to a string (`eol = _{ NEWLINE }`, `sep = { "," | NEWLINE }`)
+            rules[2].e = match r.below(9) { 0 | 1 => s(&strlit(r)), 2 | 3 => cho(s(&strlit(r)), s(&strlit(r))), 4 => seq(s("x"), s("y")), 5 => GE::Range('x', 'y'),
+                6 => builtin(r), 7 => cho(s(&strlit(r)), builtin(r)), _ => cho(builtin(r), s(&strlit(r))) };
             rules[1].e = match r.below(5) { 0 => s(&strlit(r)), 1 => cho(s(&strlit(r)), id("r2")), 2 => cho(id("r2"), s(&strlit(r))), 3 => id("r2"), _ => cho(s(&strlit(r)), cho(s(&strlit(r)), s(&strlit(r)))) };
             let k = 1 + r.below(4) as usize;
-            let alts: Vec<GE> = (0..k).map(|_| match r.weighted(&[8, 3, 2, 1, 1, if wild { 1 } else { 0 }]) {
-                0 => s(&strlit(r)), 1 => id("r1"), 2 => id("r2"), 3 => GE::Ins("x".into()), 4 => id(["ANY", "ASCII_DIGIT", "SOI"][r.below(3) as usize]), _ => id("undefined_rule") }).collect();
+            let alts: Vec<GE> = (0..k).map(|_| match r.weighted(&[8, 3, 3, 1, 4, if wild { 1 } else { 0 }]) {
+                0 => s(&strlit(r)), 1 => id("r1"), 2 => id("r2"), 3 => GE::Ins("x".into()), 4 => builtin(r), _ => id("undefined_rule") }).collect();
             let lean = [9, 9, 9, 9, 9, 0, 2, 4][r.below(8) as usize];
             let alt = tree(r, alts, cho, lean);
             let core = match r.weighted(&[12, 1, 1, 1, 1]) {
@@ -199,7 +214,7 @@ fn shaped(r: &mut Rng, kind: u32, x: bool, wild: bool, huge_ok: bool) -> Vec<GRu
                 2 => GE::Rep(bx(seq(GE::Neg(bx(alt)), s("x")))), 3 => GE::Rep(bx(seq(GE::Pos(bx(alt)), id("ANY")))), _ => GE::Rep(bx(seq(GE::Neg(bx(alt)), GE::Range('x', 'y')))) };
             match r.below(4) { 0 => core, 1 => seq(core, s(&strlit(r))), 2 => seq(s(&strlit(r)), seq(core, s(&strlit(r)))), _ => ctx(r, core, 0, n, &c) }
         }
-        2 => { let inner = if r.chance(1, 3) { GE::RepMM(bx(small(r, 0, n, &c)), r.below(3) as u32, 1 + r.below(3) as u32) } else { small(r, 0, n, &c) };
+        2 => { let inner = if r.chance(1, 3) { GE::RepMM(bx(small(r, 0, n, &c)), r.below(3) as u32, 1 + r.below(3) as u32) } else { operand(r, 0, n, &c) };
                // u32::MAX makes `num + 1` overflow at once; u32::MAX - 1 does so only for e{n,} (`min + 2`), elsewhere it would build 2^32 clones
                // (only when the driver found the unroller's `num + 1` arithmetic in the tree: with the inclusive ranges of the repaired
                //  unroller such a count means 2^32 clones)
@@ -214,9 +229,9 @@ fn shaped(r: &mut Rng, kind: u32, x: bool, wild: bool, huge_ok: bool) -> Vec<GRu
                // literals of one kind with an odd one out, or both kinds mixed freely (a case-sensitive literal next to a case-insensitive one)
                let mode = r.below(3);
                let leaves = (0..k).map(|_| { let ins = match mode { 0 => r.chance(2, 13), 1 => r.chance(11, 13), _ => r.chance(1, 2) };
-                   if r.chance(1, 13) { small(r, 0, n, &c) } else if ins { GE::Ins(["X", "y", "xY", "É", "", "x", "Yx"][r.below(7) as usize].into()) } else { s(&strlit(r)) } }).collect();
+                   if r.chance(1, 13) { small(r, 0, n, &c) } else if r.chance(1, 12) { builtin(r) } else if ins { GE::Ins(["X", "y", "xY", "É", "", "x", "Yx"][r.below(7) as usize].into()) } else { s(&strlit(r)) } }).collect();
                let lean = [0, 2, 4][r.below(3) as usize]; let t = tree(r, leaves, seq, lean); ctx(r, t, 0, n, &c) }
-        4 => { let a = small(r, 0, n, &c); let a2 = if r.chance(3, 4) { a.clone() } else { small(r, 0, n, &c) }; let b = small(r, 0, n, &c); let d = small(r, 0, n, &c);
+        4 => { let a = operand(r, 0, n, &c); let a2 = if r.chance(3, 4) { a.clone() } else { operand(r, 0, n, &c) }; let b = operand(r, 0, n, &c); let d = small(r, 0, n, &c);
                if r.chance(1, 2) { rules[0].ty = [Ty::Atomic, Ty::Compound][r.below(2) as usize]; }
                // two expressions of which the first matches a prefix of what the second matches (or the other way round): ordered choice
                // commits to the first that matches, so such heads / tails tell a sound factoring from an unsound one
@@ -229,7 +244,7 @@ fn shaped(r: &mut Rng, kind: u32, x: bool, wild: bool, huge_ok: bool) -> Vec<GRu
                    3 => cho(seq(a.clone(), b), cho(seq(a2, d), a)), 4 => cho(cho(seq(a.clone(), b), seq(a2, d)), a),
                    5 => cho(seq(h1, t.clone()), seq(h2, t)), 6 => cho(seq(h1, t.clone()), cho(seq(h2, t), d)), _ => cho(seq(a, h1), seq(a2, h2)) };
                ctx(r, e, 0, n, &c) }
-        5 => { let a = small(r, 0, n, &c); let a2 = if r.chance(4, 5) { a.clone() } else { small(r, 0, n, &c) }; let b = small(r, 0, n, &c);
+        5 => { let a = operand(r, 0, n, &c); let a2 = if r.chance(4, 5) { a.clone() } else { operand(r, 0, n, &c) }; let b = operand(r, 0, n, &c);
                // the separated-list shape on its own, or followed by a tail (what the rules of real grammars look like: a trailing separator,
                // a terminator that overlaps the separator, the end of input), nested to the left (as written) or to the right (as rotated)
                let tail = match r.below(10) { 0 => Some(GE::Opt(bx(b.clone()))), 1 => Some(seq(GE::Opt(bx(b.clone())), id("EOI"))), 2 => Some(id("EOI")), 3 => Some(small(r, 0, n, &c)),
@@ -311,6 +326,25 @@ fn literals(g: &[GRule]) -> Vec<String> {
     }
     out
 }
+/// what tells a built-in from a wrong re-implementation of it: every form of the line break, and for a character class its first and last
+/// members and the characters just outside
+fn class_chars(name: &str) -> &'static [&'static str] {
+    match name {
+        "NEWLINE" => &["\n", "\r", "\r\n"],
+        "ASCII_DIGIT" => &["0", "9", "/", ":"], "ASCII_NONZERO_DIGIT" => &["1", "9", "0", ":"], "ASCII_BIN_DIGIT" => &["0", "1", "2", "/"],
+        "ASCII_OCT_DIGIT" => &["0", "7", "8", "/"], "ASCII_HEX_DIGIT" => &["0", "9", "a", "f", "A", "F", "g", "G", "/", ":", "`", "@"],
+        "ASCII_ALPHA_LOWER" => &["a", "z", "`", "{", "A"], "ASCII_ALPHA_UPPER" => &["A", "Z", "@", "[", "a"],
+        "ASCII_ALPHA" => &["a", "z", "A", "Z", "`", "{", "@", "["], "ASCII_ALPHANUMERIC" => &["a", "z", "A", "Z", "0", "9", "`", "{", "@", "[", "/", ":"],
+        "ASCII" => &["\u{7f}", "\u{80}", "\u{0}"],
+        _ => &[],
+    }
+}
+/// the class_chars of every built-in the rule set names
+fn class_tokens(g: &[GRule]) -> Vec<String> {
+    let (mut v, mut seen) = (vec![], HashSet::new());
+    for r in g { walk(&r.e, &mut |e| if let GE::Id(n) = e { for c in class_chars(n) { push_new(&mut v, &mut seen, c.to_string()); } }); }
+    v
+}
 fn push_new(v: &mut Vec<String>, seen: &mut HashSet<String>, s: String) { if !s.is_empty() && seen.insert(s.clone()) { v.push(s); } }
 /// the input alphabet derived from the grammar itself: the letters of alphabet(), every literal, its case-swapped / upper / lower forms,
 /// its proper prefixes, its characters (both cases), and one member of every character class the grammar names
@@ -319,6 +353,7 @@ fn tokens(g: &[GRule]) -> Vec<String> {
     for a in alphabet(g) { push_new(&mut v, &mut seen, a.to_string()); }
     let t = sexp_grammar(g);
     for (pat, tok) in [("DIGIT", "0"), ("ALPHANUMERIC", "0"), ("NEWLINE", "\n"), ("ASCII_ALPHA", "a"), ("ASCII_HEX", "f")] { if t.contains(pat) { push_new(&mut v, &mut seen, tok.to_string()); } }
+    for c in class_tokens(g) { push_new(&mut v, &mut seen, c); }
     for l in literals(g) {
         for f in [l.clone(), swap_case(&l), l.to_uppercase(), l.to_lowercase()] { push_new(&mut v, &mut seen, f); }
         let idx: Vec<usize> = l.char_indices().map(|(i, _)| i).skip(1).collect();
@@ -363,6 +398,17 @@ fn inputs_for(g: &[GRule], maxlen: usize, depth: Depth, extra: &[String]) -> (Ve
     let extr: Vec<&str> = ext.iter().map(|s| s.as_str()).collect();
     let (elen, ntok, nbytes, cap) = match depth { Depth::Base => (3, 3, 6, 300), Depth::Mid => (3, 4, 8, 1200), Depth::Deep => (4, 5, 10, 6000) };
     for s in all_strings(&extr, elen) { if seen.insert(s.clone()) { out.push(s); } }
+    // a rule set that names built-ins: all short strings over two letters of the alphabet and the class_chars of those built-ins (the line
+    // break in its three forms, first / last member of a character class and the neighbours outside), as long as the budget allows
+    let cls = class_tokens(g);
+    if !cls.is_empty() {
+        let mut sym: Vec<&str> = alpha.iter().take(2).cloned().collect();
+        for c in &cls { if !sym.contains(&c.as_str()) { sym.push(c.as_str()); } }
+        let budget = match depth { Depth::Base => 450usize, Depth::Mid => 1200, Depth::Deep => 3000 };
+        let (k, mut clen, mut total, mut layer) = (sym.len(), 0usize, 0usize, 1usize);
+        while clen < 5 { layer = layer.saturating_mul(k); if total + layer > budget { break; } total += layer; clen += 1; }
+        for s in all_strings(&sym, clen.max(1)) { if seen.insert(s.clone()) { out.push(s); } }
+    }
     derived(&toks, ntok, nbytes, cap, &mut out, &mut seen);
     (out, nbase)
 }
@@ -510,14 +556,18 @@ fn head_offset(e: &GE) -> usize { match e { GE::Seq(l, _) => 1 + head_offset(l),
 ///   literals made prefixes / extensions of each other, literal kind or letter case changed, a sub-expression replaced by a literal or by a copy
 ///   of another sub-expression (structural equalities are what the rewrites look for), the heads of the two sides of a choice made to
 ///   overlap (ordered choice is sensitive to exactly that), the entry rule wrapped in a repetition / optional / sequence, a rule type changed,
-///   implicit whitespace / comments switched on
+///   implicit whitespace / comments switched on, a sub-expression replaced by a built-in
 fn mutate(g0: &[GRule], r: &mut Rng) -> Vec<GRule> {
     let mut g = g0.to_vec();
     let ext = ["x", "y", "xy", "X"];
     for _ in 0..1 + r.below(3) {
         let ri = if r.chance(2, 3) { 0 } else { r.below(g.len() as u64) as usize };
         let n = size(&g[ri].e);
-        match r.below(11) {
+        match r.below(12) {
+            // a sub-expression (often a literal) replaced by a built-in
+            11 => { let k = if r.chance(1, 2) { let sites: Vec<usize> = literal_sites(&g).into_iter().filter(|s| s.0 == ri).map(|s| s.1).collect();
+                        if sites.is_empty() { r.below(n as u64) as usize } else { sites[r.below(sites.len() as u64) as usize] } } else { r.below(n as u64) as usize };
+                    let b = builtin(r); set_node(&mut g, ri, k, &mut |_| b.clone()); }
             0 => { let sites = literal_sites(&g); if sites.len() >= 2 {
                        let i = r.below(sites.len() as u64) as usize; let mut j = r.below(sites.len() as u64 - 1) as usize; if j >= i { j += 1; }
                        let t = format!("{}{}", sites[i].2, if r.chance(1, 3) { sites[j].2.clone() } else { ext[r.below(3) as usize].to_string() });
